@@ -169,3 +169,10 @@ Definition merge_all (exclude : bool) (st : ist) (mem : counters) : result (ist 
   if negb (Nat.eqb (length ins) (length sorted)) then Err EType     (* '.' coordinates: len()/comparisons fail *)
   else let '(outs, mem') := merge default_criteria ins mem in
        match apply_all exclude st outs with Ok st' => Ok (st', mem') | Err e => Err e end.
+
+(* ---- counting covered positions (C16_children_bp_union) ---- *)
+Fixpoint zrange (lo : Z) (n : nat) : list Z := match n with O => [] | S k => lo :: zrange (lo + 1) k end.
+Definition zcount (P : Z -> bool) (lo hi : Z) : Z := Z.of_nat (length (filter P (zrange lo (Z.to_nat (hi - lo))))).
+
+Definition in_kids (kids : list minput) (p : Z) : bool :=
+  existsb (fun k => (m_start (mi_v k) <=? p) && (p <=? m_end (mi_v k))) kids.
